@@ -1445,9 +1445,14 @@ void Validator::ValidatorImpl::validateReset(const ResetPtr &reset, const Compon
         description += "with variable '" + reset->variable()->name() + "', ";
         auto var = reset->variable();
         auto varParent = owningComponent(var);
-        varParentName = varParent->name();
-        if (varParentName != component->name()) {
+        if (varParent == nullptr) {
+            // A variable without a parent component cannot be a variable of this component.
             varOutsideComponent = true;
+        } else {
+            varParentName = varParent->name();
+            if (varParentName != component->name()) {
+                varOutsideComponent = true;
+            }
         }
     }
 
@@ -1458,9 +1463,13 @@ void Validator::ValidatorImpl::validateReset(const ResetPtr &reset, const Compon
 
         auto var = reset->testVariable();
         auto varParent = owningComponent(var);
-        testVarParentName = varParent->name();
-        if (testVarParentName != component->name()) {
+        if (varParent == nullptr) {
             testVarOutsideComponent = true;
+        } else {
+            testVarParentName = varParent->name();
+            if (testVarParentName != component->name()) {
+                testVarOutsideComponent = true;
+            }
         }
     }
 
